@@ -123,9 +123,12 @@ class State:
         self.localobj = {}    # alloc reg name -> obj id
         self.localname = {}   # source var name -> obj id (latest)
         self.dead = False
+        self._hs = set()
+        self._hs_len = 0
         self.elem_atoms = {}  # ring atom -> None
         self.pending = {}     # ring atom havocked by the call being applied -> cell key
         self.call_mark = 0
+        self.old = None       # entry-state memory of this path (shared by all forks of one entry state)
 
     def fork(self):
         s = State(self.run)
@@ -139,9 +142,12 @@ class State:
         s.loopstack = [dict(l) for l in self.loopstack]
         s.localobj = dict(self.localobj)
         s.localname = dict(self.localname)
+        s._hs = set(self._hs)
+        s._hs_len = self._hs_len
         s.elem_atoms = dict(self.elem_atoms)
         s.pending = dict(self.pending)
         s.call_mark = self.call_mark
+        s.old = self.old
         return s
 
     def oblige(self, kind, site, goal, descr=""):
@@ -165,12 +171,16 @@ class State:
         """True / False if the formula (or its negation) is literally among the path's hypotheses, else None"""
         if f is True or f is False:
             return f
-        hs = set()
-        for h in self.hyps:
+        hs = self._hs
+        if self._hs_len > len(self.hyps):
+            hs = self._hs = set()
+            self._hs_len = 0
+        for h in self.hyps[self._hs_len:]:
             try:
                 hs.add(h)
             except TypeError:
                 pass
+        self._hs_len = len(self.hyps)
         cs = conjuncts(f)
         try:
             if all(c in hs for c in cs):
@@ -265,6 +275,10 @@ class FuncRun:
             from .ring import RingDomain
             self.dom = RingDomain()
             self.prog = V.prog.view({ELEMENT})
+        elif self.mode == "group":
+            from .group import GroupDomain, GROUP_OPAQUE
+            self.dom = GroupDomain()
+            self.prog = V.prog.view(GROUP_OPAQUE)
         else:
             raise VerifError("mode %s not handled by symex" % self.mode)
         self.obligations = []
@@ -282,6 +296,10 @@ class FuncRun:
         self.global_objs = {}
         self.pre_objs = set()
         self.asm_body = None
+        self.cut_seen = set()
+        self.sum_memo = {}
+        self.split_ranges = []
+        self.lazy_extra = {}
         self.lazy_vals = {}
         self.gdecl = {}
         self.gbounds = {}
@@ -305,6 +323,9 @@ class FuncRun:
         if prog.is_bool(t):
             return False
         k = prog.kind(t)
+        if k == "opaque" and self.mode == "group":
+            from .group import GVal
+            return GVal({}, wf=True, init=False, raw="ZEROVALUE:" + t)
         if k == "opaque":
             from .ring import RVal, RPoly
             return RVal(RPoly.const(0), 2, "ZERO")
@@ -337,6 +358,12 @@ class FuncRun:
             st.decl[n] = "Bool"
             return ("bvar", n)
         k = prog.kind(t)
+        if k == "opaque" and self.mode == "group":
+            from .group import GVal
+            a = self.dom.new_name(name).replace("!", "_")
+            n = self.dom.new_name("init").replace("!", "_")
+            st.decl[n] = "Bool"
+            return GVal({a: Poly.const(1)}, wf=False, init=("bvar", n))
         if k == "opaque":
             from .ring import RVal, RPoly
             a = self.dom.new_name(name).replace("!", "_").replace(".", "_").replace("[", "_").replace("]", "").replace("^", "p").replace("'", "n").replace("#", "_")
@@ -397,14 +424,23 @@ class FuncRun:
                 if key not in self.lazy_vals:
                     nm = "%s%s" % (info.name, "".join("[%s]" % p for p in path))
                     tmp = State(self)
+                    before = set(self.objs)
                     self.lazy_vals[key] = self.fresh_value(tmp, lt, nm)
                     self.gdecl.update(tmp.decl)
                     self.gbounds.update(tmp.bounds)
                     self.ghyps.extend(tmp.hyps)
+                    # a pointer-typed cell (element of []*T): its pointee is an input object too
+                    self.lazy_extra[key] = list(tmp.mem.items())
+                    self.pre_objs |= set(self.objs) - before
                 v = self.lazy_vals[key]
                 st.mem[key] = v
                 if self.old_mem is not None and key not in self.old_mem:
                     self.old_mem[key] = v
+                for k2, v2 in self.lazy_extra.get(key, []):
+                    if k2 not in st.mem:
+                        st.mem[k2] = v2
+                    if self.old_mem is not None and k2 not in self.old_mem:
+                        self.old_mem[k2] = v2
             elif info.lazy:
                 raise VerifError("read of unwritten cell %s%s of a fresh slice" % (oid, list(path)))
             else:
@@ -515,6 +551,18 @@ class FuncRun:
                 ts = [self.prog.elem(t)] * n
             return Comp(k, [self.merge_vals(st, [(c, v.elems[i]) for c, v in vals], ts[i]) for i in range(n)])
         ii = self.prog.int_info(t)
+        if k == "opaque" and self.mode == "group":
+            from .group import GVal
+            if not all(isinstance(v, GVal) and v.wf and v.init is True for _, v in vals):
+                raise Unsupported("symbolic selection among point values that are not all valid")
+            r = dict(vals[-1][1].lin)
+            for c, v in reversed(vals[:-1]):
+                out = {}
+                for at in sorted(set(r) | set(v.lin)):
+                    a_, b_ = v.lin.get(at, Poly.const(0)), r.get(at, Poly.const(0))
+                    out[at] = a_ if a_ == b_ else self.dom.ite(st, c, a_, b_, 64, True)
+                r = out
+            return GVal(r, True, True)
         r = vals[-1][1]
         for c, v in reversed(vals[:-1]):
             if ii:
@@ -557,17 +605,24 @@ class FuncRun:
         self._add(st, name, kind, site, goal, descr)
 
     def _add(self, st, name, kind, site, goal, descr):
+        if goal is True:
+            # nothing to send to a solver: do not snapshot the context
+            ob = Obligation(name, kind, (), goal, {}, {}, site, descr, self.mode, self.fname, self.part_name)
+            ob.run = self
+            self.obligations.append(ob)
+            return
         ob = Obligation(name, kind, tuple(st.hyps) + tuple(self.ghyps), goal, st.decl, st.bounds, site, descr, self.mode, self.fname, self.part_name)
         ob.decl = dict(st.decl)
         ob.decl.update(self.gdecl)
         ob.bounds = dict(st.bounds)
         ob.bounds.update(self.gbounds)
         ob.run = self
+        ob.old_mem = st.old if st.old is not None else self.old_mem
         self.obligations.append(ob)
 
     def note_bound(self, st, g):
         """harvest atom <= const style facts into the interval table (lia only)"""
-        if self.mode not in ("lia", "ring") or not isinstance(g, tuple):
+        if self.mode not in ("lia", "ring", "group") or not isinstance(g, tuple):
             return
         if g[0] in ("<=", "<") and isinstance(g[1], Poly) and isinstance(g[2], Poly):
             a, b = g[1], g[2]
@@ -637,28 +692,17 @@ class FuncRun:
         ev = Evaluator(self, st, self.old_mem, self.contract_env(), phase="pre", assume=True)
         for lab, ast, txt, gpkg in self.V.globalinv_for(self):
             ev.pkg = gpkg
-            try:
-                st.assume(ev.bool(ast))
-            except (VerifError, Unsupported, KeyError):
-                # an invariant stated in another tier's vocabulary: not available in this mode (losing a hypothesis is sound)
-                if self.mode == "ring":
-                    raise
-        ev.pkg = self.f.get("pkg", "")
-        for lab, ast, txt in self.c.requires:
+            # an invariant is stated in one tier's vocabulary (label prefix F: ring, G: group, L: lia/bv; none: all);
+            # not assuming the others is sound
+            tier = (lab or "")[:2]
+            if tier in ("F:", "G:", "L:", "X:"):
+                want = {"F:": ("ring",), "G:": ("group",), "L:": ("lia", "bv", "ring", "group"), "X:": ("lia", "bv", "ring")}[tier]
+                if self.mode not in want:
+                    continue
             st.assume(ev.bool(ast))
-        for lab, ast, txt in self.c.lemmas:
-            g = ev.bool(ast)
-            self.add_named(st, "lemma", "lemma.%s" % (lab or "nia"), "", g, txt)
-            self.obligations[-1].nia = True
-            st.assume(g)
-        for kind, txt in self.c.other:
-            if kind == "assume":
-                from .cparse import parse_expr, split_label
-                lab, e = split_label(txt)
-                st.assume(ev.bool(parse_expr(e)))
-                self.V.assumed.add((self.fname, lab or "", e))
-        self.old_mem = dict(st.mem)   # requires may have created lazy cells
-        self.entry_hyps = list(st.hyps)
+        ev.pkg = self.f.get("pkg", "")
+        # entry case splits (bounded parameters such as slice lengths) come first: the precondition may
+        # quantify over them
         entry_states = [st]
         for kind, txt in self.c.other:
             if kind == "entrysplit":
@@ -666,18 +710,55 @@ class FuncRun:
                 from .cparse import parse_expr
                 m = _re.match(r"^(.*)\s+in\s+(-?\d+)\s*\.\.\s*(-?\d+)$", txt)
                 lo, hi = int(m.group(2)), int(m.group(3))
-                e = ev.int(parse_expr(m.group(1)))
-                rng = mk_and(self.dom.s_cmp("<=", self.dom.s_const(lo), e), self.dom.s_cmp("<", e, self.dom.s_const(hi)))
-                self.add_named(st, "pre", "entrysplit.exhaustive", "", rng, "entry case split over %d..%d covers the precondition" % (lo, hi))
                 new_states = []
+                # the split must cover the precondition: proved from the requires clauses that can be evaluated
+                # before the split (e.g. `len(points) < 4`)
+                sb = entry_states[0].fork()
+                evb = Evaluator(self, sb, dict(self.old_mem), self.contract_env(sb), phase="pre")
+                for lab_, ast_, txt_ in self.c.requires:
+                    try:
+                        sb.assume(evb.bool(ast_))
+                    except (VerifError, Unsupported):
+                        pass
+                eb = evb.int(parse_expr(m.group(1)))
+                self.add_named(sb, "pre", "entrysplit.exhaustive", "", mk_and(self.dom.s_cmp("<=", self.dom.s_const(lo), eb), self.dom.s_cmp("<", eb, self.dom.s_const(hi))),
+                               "the entry case split %s covers the precondition" % txt)
                 for s0 in entry_states:
+                    ev0 = Evaluator(self, s0, self.old_mem, self.contract_env(s0), phase="pre")
+                    e = ev0.int(parse_expr(m.group(1)))
+                    self.split_ranges.append((m.group(1), lo, hi))
                     for k_ in range(lo, hi):
                         s2 = s0.fork()
                         s2.assume(self.dom.s_cmp("==", e, self.dom.s_const(k_)))
                         new_states.append(s2)
                 entry_states = new_states
+        first = True
+        for s0 in entry_states:
+            ev = Evaluator(self, s0, self.old_mem, self.contract_env(s0), phase="pre", assume=True)
+            ev.pkg = self.f.get("pkg", "")
+            for lab, ast, txt in self.c.requires:
+                s0.assume(ev.bool(ast))
+            for lab, ast, txt in self.c.lemmas:
+                g = ev.bool(ast)
+                if first:
+                    self.add_named(s0, "lemma", "lemma.%s" % (lab or "nia"), "", g, txt)
+                    self.obligations[-1].nia = True
+                s0.assume(g)
+            for kind, txt in self.c.other:
+                if kind == "assume":
+                    from .cparse import parse_expr, split_label
+                    lab, e = split_label(txt)
+                    s0.assume(ev.bool(parse_expr(e)))
+                    self.V.assumed.add((self.fname, lab or "", e))
+            s0.old = dict(s0.mem)
+            if first:
+                self.old_mem = s0.old
+            first = False
+        st = entry_states[0] if entry_states else st
+        self.entry_hyps = list(st.hyps)
         # vacuity cover of the precondition
-        self.add_named(st, "cover", "cover.requires", "", "COVER", "precondition is satisfiable")
+        for s0 in entry_states[:1]:
+            self.add_named(s0, "cover", "cover.requires", "", "COVER", "precondition is satisfiable")
         if self.f.get("lemma"):
             self.at_return(st, [], {"pos": "lemma"})
             self.paths += 1
@@ -695,6 +776,8 @@ class FuncRun:
         self.work = work
         while work:
             s = work.pop()
+            if s.old is not None:
+                self.old_mem = s.old
             try:
                 self.exec_path(s, work)
             except PathEnd:
@@ -769,6 +852,8 @@ class FuncRun:
         L = self.c.loops.get(k)
         if not L or not L["invariant"]:
             return   # executed by unrolling; all guards must fold to constants
+        if L["opts"].get("cut"):
+            return self.at_loop_cut(st, k, body, L)
         head = st.block
         from_inside = st.prev in body
         active = [x for x in st.loopstack if x["head"] == head]
@@ -810,6 +895,48 @@ class FuncRun:
         dec = ev.int(L["decreases"]) if L["decreases"] is not None else None
         st.loopstack.append({"head": head, "allowed": allowed, "objmark": set(self.objs), "dec": dec})
 
+    def at_loop_cut(self, st, k, body, L):
+        """cut point per iteration of a loop whose counter is concrete on every path: the invariant is proved
+        on every arrival; only the first arrival for a given counter value continues (from the havocked state
+        constrained by the invariant), so branches inside the body do not multiply across iterations"""
+        from .ceval import Evaluator
+        head = st.block
+        env = self.loop_env(st, k)
+        ev = Evaluator(self, st, self.old_mem, env, phase="inv")
+        cv = ev.conc(ev.ev(("id", L["var"]), False))
+        key = (head, cv)
+        for lab, ast, txt in L["invariant"]:
+            self.add_named(st, "loop", "loop%d@%s=%s.%s" % (k, L["var"], cv, lab or "inv"), "", ev.bool(ast), txt)
+        if key in self.cut_seen:
+            raise PathEnd()
+        self.cut_seen.add(key)
+        allowed = set()
+        for bi in body:
+            for ins in self.f["blocks"][bi]["instrs"]:
+                if ins["op"] == "Store" and ins["addr"]["k"] == "reg" and ins["addr"]["n"] in st.localobj:
+                    o = st.localobj[ins["addr"]["n"]]
+                    for c in self.cells_under(o, ()):
+                        allowed.add((c[0], c[1]))
+        for ast in L["modifies"]:
+            for c in ev.loc_cells(ast):
+                allowed.add((c[0], c[1]))
+        keep = {}
+        # the counter itself (and other listed `keep` locals) stays concrete
+        for nm in [L["var"]] + [x for x in str(L["opts"].get("keep", "")).split(",") if x]:
+            if nm in st.localname:
+                for c in self.cells_under(st.localname[nm], ()):
+                    keep[(c[0], c[1])] = st.mem.get((c[0], c[1]))
+        for (o, p) in sorted(allowed, key=repr):
+            if (o, p) in keep:
+                continue
+            if (o, p) in st.mem or self.objs[o].lazy:
+                lt = self.loc_type(o, p)
+                st.mem[(o, p)] = self.fresh_value(st, lt, "%s%s@%s" % (self.objs[o].name, self.prog.path_name(self.objs[o].ty, p) if not self.objs[o].lazy else str(list(p)), cv))
+        ev = Evaluator(self, st, self.old_mem, self.loop_env(st, k), phase="inv", assume=True)
+        ev.havocked = set(allowed) - set(keep)
+        for lab, ast, txt in L["invariant"]:
+            st.assume(ev.bool(ast))
+
     def loop_env(self, st, k):
         env = dict(self.contract_env(st))
         return env
@@ -831,7 +958,7 @@ class FuncRun:
         for kind, txt in self.c.other:
             if kind == "use":
                 st.assume(self.lemma_instance(ev, txt))
-        chain = self.mode == "ring" or "chainposts" in self.c.opts
+        chain = self.mode in ("ring", "group") or "chainposts" in self.c.opts
         for i, (lab, ast, txt) in enumerate(list(self.c.ensures_body) + list(self.c.ensures)):
             g = ev.bool(ast)
             self.add_named(st, "post", "post.%s" % (lab or str(i + 1)), ins.get("pos", ""), g, txt)
@@ -914,7 +1041,7 @@ class FuncRun:
         pan = [o for o in self.c.other if o[0] == "panics"]
         if pan:
             from .cparse import parse_expr, split_label
-            ev = Evaluator(self, self.entry_state_for_eval(st), self.old_mem, self.contract_env(), phase="pre")
+            ev = Evaluator(self, self.entry_state_for_eval(st), self.old_mem, self.contract_env(st), phase="pre")
             goal = False
             for _, txt in pan:
                 lab, e = split_label(txt)
@@ -1154,6 +1281,8 @@ class FuncRun:
             return self.int_cmp("==", x, y, ii[1])
         if prog.is_bool(t):
             return mk_iff(x, y)
+        if k == "opaque" and self.mode == "group":
+            raise Unsupported("comparison of point values in group mode")
         if k == "opaque":
             return self.limbs_equal(st, x, y)
         if k == "ptr":
